@@ -137,7 +137,11 @@ def tokenize(s, flags=frozenset()):
                     j += 1
                 before_id = j < n and s[j].isascii() and (s[j].isalpha() or s[j] == "_")
                 after_operand = bool(toks) and (toks[-1][0] == "num" or toks[-1] in (("op", ")"), ("op", "post++"), ("op", "post--")))
-                if toks and toks[-1][0] == "id":
+                after_pre_atom = len(toks) >= 2 and toks[-1][0] == "id" and toks[-2][0] == "op" and toks[-2][1].startswith("pre")
+                if "loose_incr" in flags and after_pre_atom:
+                    toks.append(("op", c))          # defect emulation: `++z++9` is read as (++z) + (+9)
+                    i += 1
+                elif toks and toks[-1][0] == "id":
                     toks.append(("op", "post" + c + c))
                     i += 2
                 elif before_id and "loose_incr" in flags and after_operand:
